@@ -42,6 +42,8 @@ type chainRun struct {
 	// per node: a SetHead fell back to an older state and left the block head
 	// below the header head with the abandoned bodies still stored
 	fellBack map[int]bool
+	// future-block histories (future.go): per node, parked block id -> when it was parked
+	queued []map[int]time.Time
 }
 
 type txLoc struct {
@@ -136,6 +138,7 @@ func execChain(prop string, p *Plan, col *kernel.Collector) []kernel.Violation {
 		c.accepted = append(c.accepted, map[int]bool{0: true})
 		c.hdrOnly = append(c.hdrOnly, map[int]bool{0: true})
 		c.prevTD = append(c.prevTD, new(big.Int).Set(u.TD[0]))
+		c.queued = append(c.queued, map[int]time.Time{})
 	}
 	if c.c03 {
 		c.txIndex = map[common.Hash][]txLoc{}
@@ -190,8 +193,24 @@ func (c *chainRun) apply(i int, op Op) {
 	n := c.nodes[op.Node]
 	u := c.u
 	before := n.HeadID()
+	if c.future() {
+		c.settleFuture(op.Node, i)
+		if len(c.vs) > 0 {
+			return
+		}
+		if op.Kind == "restart" {
+			c.queued[op.Node] = map[int]time.Time{} // the parked blocks live in memory only
+		}
+	}
 	switch op.Kind {
 	case "insert":
+		if c.future() {
+			c.applyFutureInsert(i, op)
+			if len(c.vs) > 0 {
+				return
+			}
+			break
+		}
 		if len(c.fast[op.Node]) > 0 && !c.pivoted[op.Node] {
 			// a fast-syncing node imports nothing through InsertChain before its pivot is
 			// committed (the fetcher is off, the downloader is the only importer): such a
@@ -415,6 +434,12 @@ func (c *chainRun) apply(i int, op Op) {
 		c.col.Inc("probe_reorg")
 		if u.Blocks[after].NumberU64() < u.Blocks[before].NumberU64() {
 			c.col.Inc("probe_reorg_to_shorter_heavier")
+		}
+	}
+	if c.future() {
+		c.settleFuture(op.Node, i)
+		if len(c.vs) > 0 {
+			return
 		}
 	}
 	if c.c02 {
